@@ -224,6 +224,9 @@ func (g *Gen) specSort(t string) Sort {
 	case "boolarray":
 		return Sort("(Array Int Bool)")
 	}
+	if strings.HasPrefix(t, "*") {
+		return SRef
+	}
 	if strings.HasPrefix(t, "array:") {
 		return Sort(arrSort("Int", string(g.specSort(t[len("array:"):]))))
 	}
